@@ -112,7 +112,7 @@ def judge(site, est_factory, fit_args, M0, M0inv, diff, y, balances, tr0, viol, 
             tol = 2e-4 * (1 + abs(fref))
             stats_h = abs(f - fref) / tol
             stats['_worst'] = max(stats['_worst'], stats_h)
-            if f - fref > tol or f < fref - tol:
+            if not abs(f - fref) <= tol:
                 viol.append(V(site, 'not_minimiser', 'objective of the learned M is %.8g, the independently computed optimum is %.8g '
                               '(difference %.3g > %.3g)' % (f, fref, f - fref, tol), tr, gap=f - fref))
             # non-vacuity: do the mutated problems have a different optimum value (evaluated on the true objective)?
